@@ -5,7 +5,8 @@ from __future__ import annotations
 import pickle
 from concurrent.futures import Executor, Future
 
-from .kernel import SimCrash, SimKill
+from . import context
+from .kernel import SimCrash, SimKill, SimWorkerDeath
 
 
 class SimFuture(Future):
@@ -47,13 +48,28 @@ class SimExecutor(Executor):
         self.completed = 0
         self.max_running = 0
         self.is_shutdown = False
+        self.broken = False
 
     # -- Executor API ----------------------------------------------------------------
     def submit(self, fn, /, *args, **kwargs):
+        if self.broken:
+            from concurrent.futures.process import BrokenProcessPool
+
+            raise BrokenProcessPool("A child process terminated abruptly, the process pool is not usable anymore")
         if self.is_shutdown:
             raise RuntimeError("cannot schedule new futures after shutdown")
+        cur = context.CURRENT
+        if cur is not None and cur.kernel is not self.k:
+            # the object survived into a later simulation of the SAME process (module state is reset whenever a new
+            # process starts, so nothing else can still hold it): it is the same live pool, continue under this kernel
+            self.sim, self.k = cur, cur.kernel
+            cur.executors.append(self)
         k = self.k
         k.yield_point(f"{self.name}.submit")
+        if self.broken:  # a worker died while this submit was on its way
+            from concurrent.futures.process import BrokenProcessPool
+
+            raise BrokenProcessPool("A child process terminated abruptly, the process pool is not usable anymore")
         t = _Task()
         t.seq = self.submitted
         self.submitted += 1
@@ -84,6 +100,8 @@ class SimExecutor(Executor):
             t.payload_exc = e
 
     def _can_start(self, t):
+        if self.broken:
+            return False  # the pool was torn down when a worker died
         fs = self.sim.fs
         if fs is not None and fs.dead:
             return False  # nobody feeds queued work to the pool after the parent died
@@ -115,6 +133,21 @@ class SimExecutor(Executor):
         except (SimKill, SimCrash):
             self.running -= 1
             raise
+        except SimWorkerDeath:
+            # the worker process died: like concurrent.futures, the pool is broken - this and every unfinished future
+            # fail with BrokenProcessPool and nothing can be submitted any more
+            from concurrent.futures.process import BrokenProcessPool
+
+            self.running -= 1
+            self.completed += 1
+            self.broken = True
+            self.sim.probe("worker_process_died")
+            k.sched_note(f"X{self.name}.{t.seq}")
+            msg = "A process in the process pool was terminated abruptly while the future was running or pending."
+            t.fut.set_exception(BrokenProcessPool(msg))
+            for q in list(self.queue):
+                self.queue.remove(q)
+                q.fut.set_exception(BrokenProcessPool(msg))
         except BaseException as e:  # noqa: BLE001
             if self.mode == "process":
                 try:
@@ -136,4 +169,9 @@ class SimExecutor(Executor):
             k.sched_note(f"E{self.name}.{t.seq}")
             self.running -= 1
             self.completed += 1
-            t.fut.set_result(res)
+            if self.broken:
+                from concurrent.futures.process import BrokenProcessPool
+
+                t.fut.set_exception(BrokenProcessPool("A process in the process pool was terminated abruptly"))
+            else:
+                t.fut.set_result(res)
